@@ -336,6 +336,69 @@ NOT_YET = {}
 PROPS = [json.loads(l)["id"] for l in open(os.path.join(VERIF, "properties.jsonl"))]
 
 
+# Additions of the third build session (DESIGN.md 0b): appended to the claim text / technique of each check.
+ADDENDA = {
+ "C01": ("Histories: Props/C01Hist.lean proves, over any history on one circuit value of successful Garble calls, Garble calls failing after "
+         "any number of writes, evaluations of several garblings live at the same time and Releases in any order, that no scratch is cached twice or "
+         "behind two live garblings and every live garbling evaluates correctly (C01_history_*); harness mode hist runs such histories on the real "
+         "code byte for byte against the ownership model instantiated with Garble's writes.",
+         " + garbling histories with failing calls (theorems over the C17 ownership model, byte-exact tie)"),
+ "C02": ("Connection level: Model/Proto2Conn.lean run2Conn composes the protocol with the Conn model flight by flight; C02_both_get_f_over_conn "
+         "holds for every writer schedule, read fragmentation and message size; sessions whose per-direction volume exceeds the 64 KiB write and "
+         "1 MiB read buffers run over a fragmenting, delaying transport with every OT.",
+         " + buffer-crossing sessions over a fragmenting transport replayed through run2Conn"),
+ "C03": ("Front end: C03_ssa_lower_correct_partial - for the scalar fragment (literals, all operators incl. / %, comparisons, booleans, casts, "
+         "if/else with early return, unrolled for) the Lean model Ssa.lower of ssagen.go yields SSA whose ssaEval equals the source semantics on "
+         "every input; lower is tied four-way to the real ssagen on every run. Back end: C03_backend_correct - for every supported SSA step list "
+         "(all 37 dumped opcodes with explicit exclusions), both targets and every input, the gate list of the Lean model ssaCompile of "
+         "ssa.Program.Circuit evaluates to ssaEval; ssaCompile is tied gate for gate to the real pre-pass circuit on every run. Package-level "
+         "declarations and shadowing are in the generator and the reference interpreter (Props/C03Pkg.lean).",
+         " + Lean theorems for AST->SSA (scalar fragment) and SSA->gates (all opcodes), each tied to the real compiler stage on every run"),
+ "C04": ("Process level: Model/GarblerProc.lean - for every history of overlapping sessions on one shared circuit value each session's OT and result "
+         "loop read its own garbling (C04_proc_serves_own) and the UNION of all evaluators' views spans no session's offset (C04_process_secrecy); "
+         "harness mode overlap runs 2-4 real overlapping sessions under a deterministic scheduler over evaluator stall points, oracle over the union "
+         "of everything obtained.",
+         " + overlapping sessions on one circuit (process model, union-of-views oracle)"),
+ "C05": ("GC pass with a parametric liveness query (C05_gc_query_safe: safe for every query sound for the CURRENT set; pass-long memo refuted); "
+         "generator class upd (element updates in branches/loops on all condition vectors) and an early-free exposure search.", ""),
+ "C07": ("Histories: C07_history_compose / C07_history / C07_history_harness - the builder theorems hold from any builder state, hence for every "
+         "history of calls on one circuits.Compiler; on every run ~2000 histories of 2..5 real builder calls are compared gate for gate with the Lean "
+         "generators run in the same sequence, and MPCL functions with several operations are judged per statement.",
+         " + builder histories on one Compiler (T4 over whole histories)"),
+ "C08": ("Process state: Model/ProcState.lean - a compilation step as a function of (source, parameters, process state); theorems give the exact "
+         "condition under which a memoising facility is invisible; harness mode pstate runs sibling-program histories per stateful facility, each in "
+         "its own child process, and minimises a difference to a concrete history.", " + process-state histories in child processes"),
+ "C09": ("Program level: C09_program_target_equiv - for every SSA step list supported on both targets the Yao and GMW circuits compute the same "
+         "outputs (corollary of C03_backend_correct).", ""),
+ "C10": ("Histories: C10_run_from_state / C10_history - every call of every history of Run calls on one connected Network (stale wires, persistent "
+         "pool) outputs compute of ITS circuit and consumes exactly its triples; harness mode hist runs 2..5 calls per real network with generated "
+         "relations between consecutive circuits.", " + Run histories on one Network"),
+ "C12": ("Constant identity: Model/FoldTable.lean - the name-keyed constant table, C12_const_table_exact_iff (every constant sees its own bits iff "
+         "the naming is injective per width), decimal naming injective; modes multi (2..4 adversarial constants per program) and ident (probe of the "
+         "real Generator.Constant).", " + constant-table model and multi-constant programs"),
+ "C13": ("Size inference with struct members: Model/IoInst.lean (InstantiateWithSizes, flattenStruct, main-argument path), "
+         "C13_instantiate_identity_on_sized / _touches_only_unsized / _member_width; ops insts / mainarg judged by oracles; a nested-struct sizing "
+         "defect found by this check was repaired in /repo (4a72a07).", " + instantiate / main-argument oracles"),
+ "C15": ("Multi-row soundness tied to the coefficient vector: C15_kos_set_accept_iff, C15_kos_pair_accept_iff, C15_kos_distinct_sound; the harness "
+         "recovers all coefficients from the real receiver in every session, searches them for dependencies and replays the alteration on the real "
+         "sender; the dependent row set that always exists is the known finding C15-kos-dependent-rows-forgery.",
+         " + coefficient recovery and dependent-set alterations"),
+ "C18": ("Histories: Model/Sha2pcProc.lean - any interleaving of the round steps of several sessions in one process, steps consumed in memory or "
+         "through bytes, with FAILING steps (random-source faults, foreign / malformed messages): C18_hist_frame, _failures_erased, _isolation, "
+         "_complete_session, _faults_rejected; harness mode hist with payload-immutability oracle.", " + multi-session histories with failing steps"),
+ "C20": ("Transport boundaries: Model/VoleWire.lean (block-wise writer with the buffer size as a parameter): C20_wire_frame, "
+         "C20_wire_buffer_independent, C20_vole_session_wire, C20_vole_beyond_64k; vector lengths planned around the MEASURED transport buffers.", ""),
+}
+T1_NOTE = (" T1: the Go leaf functions of this property's model (see DESIGN.md 0b, T1 round 3) are re-translated from the current source into Lean "
+           "on every run of THIS check and proved equal to the model's definitions.")
+for _p in ("C06", "C10", "C11", "C12", "C13", "C15", "C16", "C18", "C20"):
+    ADDENDA.setdefault(_p, ("", ""))
+    ADDENDA[_p] = (ADDENDA[_p][0] + T1_NOTE, ADDENDA[_p][1] + " + T1 translator tie of its leaf functions")
+for _p, (_t, _q) in ADDENDA.items():
+    CHECKS[_p]["text"] = CHECKS[_p]["text"] + " " + _t.strip()
+    CHECKS[_p]["technique"] = CHECKS[_p]["technique"] + _q
+
+
 def main():
     checks = []
     for pid in PROPS:
